@@ -94,7 +94,28 @@ void h_run(Ctx &c)
 			feed(s);
 			continue;
 		}
-		switch (t.weighted({ 4, 3, 2, 2, 2 })) {
+		switch (c.feat(2) ? t.weighted({ 4, 3, 2, 2, 2, 1 }) : t.weighted({ 4, 3, 2, 2, 2 })) {
+		case 5: { // laps that never sample the detent: two valid quarter-steps, then an invalid jump across state 0
+			bool cw = t.flip();
+			unsigned k;
+			switch (t.weighted({ 4, 2, 1 })) {
+			default:
+			case 0: k = 1 + t.choose(40); break;
+			case 1: k = 60 + t.choose(240); break;
+			case 2: k = 16000 + t.choose(20000); break;
+			}
+			c.note("%u laps %s that never visit the detent state", k, cw ? "clockwise" : "anticlockwise");
+			for (unsigned q = 0; q < 3 * k && !c.failed; q++) {
+				int nxt = cw ? CW_NEXT[m.last] : CCW_NEXT[m.last];
+				if (nxt == 0)
+					nxt = m.last ^ 3;
+				feed(nxt);
+			}
+			c.cls("long-run-without-a-detent-sample");
+			if (k >= 60)
+				c.cls("128-or-more-quarter-steps-without-a-detent-sample");
+			break;
+		}
 		case 0: { // crank k clicks
 			bool cw = t.flip();
 			unsigned k;
